@@ -395,6 +395,12 @@ def gen_response(r, idx, nonce, req_truth, feats, opts, last):
         enc = chunk_encode(r, body, feats, trailers)
         wire += enc
         msg_len = len(enc) - (len(trailers.wire()) if trailers else 0) - 2
+    if opts.get('p_interim') and r.chance(opts['p_interim']):
+        # an interim 100 (Continue) before the final response (a server may send one whether or not the client asked for it;
+        # the client may have sent the whole request already)
+        wire = r.pick([b'HTTP/1.1 100 Continue\r\n\r\n', b'HTTP/1.1 100 Continue\r\nX-Interim: 1\r\n\r\n', b'HTTP/1.0 100 continue\r\n\r\n']) + wire
+        feats.add('interim-100')
+        t['interim'] = 1
     headers = [[e[0], e[1]] for e in hb.expected]
     if trailers is not None:
         for e in trailers.expected:
